@@ -123,11 +123,34 @@ CLAIMS.update({
                      "operands, Not-chains); the real matcher and evaluator run on each; TLC judges result and no-panic."),
 })
 
+
+ASP_NOTE = ("Trusted: TLC/SANY, the python driver, the harness's projection (answers of find_references / find_inverse_references / "
+            "has_reference / node_exists for the whole small universe after every call). Bounded: 3-4 nodes, 2-3 reference types, "
+            "depth bounds in the evidence file.")
+_ASP = "AddressSpace.tla (node map + reference index as the code keeps them, one action per public call) is model-checked by TLC against the %s monitor of AspaceProps.tla; every behaviour up to the depth bound (plus simulation over 4 nodes) is replayed on a real AddressSpace, each case in its own process where deletion may not terminate; the real query answers are judged by the same monitor in TLC and compared with the specification's prediction. "
+CLAIMS.update({
+    "C28": dict(engine="aspace", level="model_checking", note=ASP_NOTE,
+                text=_ASP % "C28" + "Monitor: forward, inverse, filtered references and has_reference of every node equal the set of references added and not removed; delete_reference's result is right."),
+    "C29": dict(engine="aspace", level="model_checking", note=ASP_NOTE,
+                text=_ASP % "C29" + "Monitor: delete(node, true) returns (no abort / time-out), removes exactly the node and its aggregates closure, and no query mentions a removed node afterwards."),
+    "C31": dict(engine="aspace", level="model_checking", note=ASP_NOTE + " The standard node set is not enumerated (graphs are generated by TLC over named nodes).",
+                text=_ASP % "C31" + "Monitor: find_nodes_relative_path returns exactly the set comprehension of the statement (type or subtypes, direction, browse name, element by element) for every generated graph x start node x relative path of 1-3 elements."),
+    "C34": dict(engine="nodemgmt", level="model_checking",
+                note="Trusted: TLC/SANY, the python driver, the harness's projection of nodes and references of the case's universe (through node_exists / find_references). Bounded: ids 1..6, 2 names, 2 reference types, depth bounds in the evidence file.",
+                text="NodeMgmt.tla specifies AddNodes / AddReferences / DeleteReferences / DeleteNodes on a small universe with a server-assigned id "
+                     "counter; TLC model-checks the C34 monitor (Good AddNodes => new id, node exists, referenced from the parent; Bad => nothing "
+                     "changed) and shows the two repaired departures as counterexamples; every sequence up to the depth bound plus simulation "
+                     "is sent through the real services (real MessageHandler, session, address space), explicit ids chosen to collide with the "
+                     "next server-assigned ids; the same monitor judges the real results in TLC."),
+})
+
 NOT_APPLICABLE = {
     "C41": "identity of a third-party YAML serializer over configuration records: no state, transition or case analysis for a TLA+ specification to own, and TLC cannot enumerate the string space that matters (DESIGN.md section 5)",
     "C42": "encode/decode fidelity of serde implementations with identity as the only oracle: outside what a TLA+ model decides (DESIGN.md section 5)",
 }
 ENGINES = [
+    {"name": "aspace", "path": "/verif/harness/src/e_aspace.rs", "serves_properties": ["C28", "C29", "C31"], "kind_free_text": "replays AddressSpace.tla behaviours on a real small AddressSpace; judged by TraceAspace.tla"},
+    {"name": "nodemgmt", "path": "/verif/harness/src/e_nodemgmt.rs", "serves_properties": ["C34"], "kind_free_text": "replays NodeMgmt.tla behaviours through the real NodeManagement services; judged by TraceNodeMgmt.tla"},
     {"name": "h_codec", "path": "/verif/h_codec", "serves_properties": ["C01", "C02", "C03"], "kind_free_text": "concretises Codec.tla / CodecLim.tla cases as real values and bytes; child processes + counting allocator"},
     {"name": "h_text", "path": "/verif/h_text", "serves_properties": ["C04", "C05"], "kind_free_text": "prints and parses TextForms.tla values with the real Display/FromStr implementations"},
     {"name": "h_num", "path": "/verif/h_num", "serves_properties": ["C06", "C39"], "kind_free_text": "maps NumLine points to Rust numbers, runs Variant::convert/cast; runs the real LIKE matcher and where-clause evaluator"},
